@@ -126,9 +126,16 @@ def run(ctx, chk):
         pr = ctx.program(cfg)
         ws = pr.field_stores('cpu::Registers', 'cycles')
         fns = sorted(set(w[0] for w in ws))
+        def writer_ok(f, depth=0):
+            # a helper that does the store on behalf of the known writers only (all its callers are known writers, or
+            # such helpers themselves) does not add a source of cycles: the per-encoding comparison inlines it
+            if f in allowed:
+                return True
+            cs = set(c[0] for c in pr.callers(f))
+            return bool(cs) and depth < 4 and all(c_ in pr.fns and writer_ok(c_, depth + 1) for c_ in cs)
         for f in fns:
             key = '%s:%s' % (cfg, f)
-            if f in allowed:
+            if writer_ok(f):
                 chk.ok('C02.3', key, nontrivial=False)
             else:
                 w = [x for x in ws if x[0] == f][0]
